@@ -1235,7 +1235,14 @@ impl<'ast, 'res> Resolver<'ast, 'res> {
             },
             Expr::Array { elements, .. } => {
                 elements.iter().fold(ExprClass::PureNoTrap, |class, element| {
-                    class.join(self.classify_expr(element))
+                    let class = class.join(self.classify_expr(element));
+                    // An element of unknown shape may already nest as deeply as a value
+                    // is allowed to: wrapping it once more is a run-time error.
+                    if self.stable_expr_type(element).is_none() {
+                        class.join(ExprClass::PureMayTrap)
+                    } else {
+                        class
+                    }
                 })
             }
             Expr::Index { array, index, .. } => self
